@@ -35,8 +35,22 @@ def _safe_impl(mod, case):
     # three cases already ran into the watchdog in this process: do not spend the limit again on every remaining case
     return {'harness_exc': 'CaseTimeout: not run, %d earlier cases did not terminate within %d s' % (_TIMEOUTS[0], limit)}
 
+  try:
+    import greenlet as _greenlet
+    main_g = _greenlet.getcurrent()
+  except Exception:
+    _greenlet = None
+    main_g = None
+
   def on_alarm(_sig, _frm):
-    raise CaseTimeout('implementation did not terminate within %d s of wall time' % limit)
+    exc = CaseTimeout('implementation did not terminate within %d s of wall time' % limit)
+    # the handler runs in whichever greenlet is executing; a livelock inside hub callbacks or another greenlet would
+    # swallow an exception raised there, so deliver it to the greenlet that is running the case
+    if _greenlet is not None and main_g is not None and _greenlet.getcurrent() is not main_g and not main_g.dead:
+      signal.alarm(max(5, limit // 10))      # should that fail to end the case, ring again
+      main_g.throw(exc)
+      return
+    raise exc
   old = None
   try:
     old = signal.signal(signal.SIGALRM, on_alarm)
